@@ -109,7 +109,9 @@ func wildcardMatch(pat []byte, str []byte) bool {
 }
 
 func (p *hostPattern) match(a addr) bool {
-	return wildcardMatch([]byte(p.addr.host), []byte(a.host)) && p.addr.port == a.port
+	// Host names are not case sensitive; OpenSSH lower-cases them before
+	// matching.
+	return wildcardMatch([]byte(strings.ToLower(p.addr.host)), []byte(strings.ToLower(a.host))) && p.addr.port == a.port
 }
 
 type keyDBLine struct {
@@ -545,6 +547,7 @@ func newHashedHost(encoded string) (*hashedHost, error) {
 }
 
 func (h *hashedHost) match(a addr) bool {
+	a.host = strings.ToLower(a.host)
 	return bytes.Equal(hashHost(Normalize(a.String()), h.salt), h.hash)
 }
 
